@@ -293,6 +293,22 @@ def c18(ctx):
                   % (', after %s' % t.t.get('env') if t.t.get('env', 'none') != 'none' else '', flag))
     if n == 0:
         raise AnalysisBroken('no transition leaves the HOLD state: the hold rules would be vacuous')
+    # cat_is_busy is a function of the two control states (table above); "OK means that no line is partially
+    # received" therefore needs the machine-level fact that IDLE is only re-entered once the line has been
+    # consumed up to its LF and answered: the history analysis of C01, read for this property
+    from .core import Ctx
+    from .rules_fsm import c01
+    sub = Ctx('C01', ctx.model, ctx.tier)
+    sub.extra['_separation_checked'] = True
+    c01(sub)
+    n1 = sum(v for k, v in sub.counts.items() if k in ('C01/ack-after-lf', 'C01/one-ack', 'C01/read-after-lf'))
+    ctx.instance('idle-means-line-done', n1)
+    if n1 == 0:
+        raise AnalysisBroken('the line-history analysis matched nothing')
+    for f in sub.findings:
+        if f.rule in ('C01/ack-after-lf', 'C01/read-after-lf') or (f.rule == 'C01/one-ack' and 'returns to idle' in f.msg):
+            ctx.check('idle-means-line-done', False, f.site,
+                      'the command machine can be back in IDLE - where cat_is_busy reports OK - while a line is only partially received: ' + f.msg)
     return ctx
 
 
